@@ -8,6 +8,7 @@ import (
 	"errors"
 	"fmt"
 	"math"
+	"math/big"
 	"os"
 	"reflect"
 	"sort"
@@ -24,8 +25,99 @@ import (
 
 // ---------- JSON AST rendering (generic values as encoding/json decodes them) ----------
 
+// numLit is a JSON number written with a chosen spelling (1.7e9, 17e8,
+// 1700000000.0, -0 ...). It marshals as that literal. Its AST value is computed
+// from the literal's mathematical value with math/big, independently of the
+// library: z = the value truncated toward zero; frac = "" iff it is an integer.
+type numLit string
+
+func (n numLit) MarshalJSON() ([]byte, error) { return []byte(n), nil }
+
+func (n numLit) term() string {
+	r, ok := new(big.Rat).SetString(string(n))
+	if !ok {
+		panic("numLit: " + string(n))
+	}
+	z := new(big.Int).Quo(r.Num(), r.Denom()) // truncates toward zero
+	if !z.IsInt64() {
+		panic("numLit out of range: " + string(n))
+	}
+	frac := ""
+	if !r.IsInt() {
+		f, _ := strconv.ParseFloat(string(n), 64)
+		frac = strconv.FormatFloat(f, 'g', -1, 64)
+	}
+	return emit.Ctor("JNum", emit.Z(z.Int64()), emit.Str(frac))
+}
+
+// spell writes the integer t in one of the JSON spellings of that number.
+func (g gen) spell(t int64) (numLit, string) {
+	plain := strconv.FormatInt(t, 10)
+	sign, digits := "", plain
+	if t < 0 {
+		sign, digits = "-", plain[1:]
+	}
+	e := drv.Pick(g.r, []string{"e", "E", "e+", "E+"})
+	if t == 0 {
+		z := drv.Pick(g.r, []string{"0", "-0", "0.0", "0e5", "0.00E+2"})
+		return numLit(z), "zero"
+	}
+	if len(digits) < 2 {
+		return numLit(drv.Pick(g.r, []string{plain, plain + ".0", plain + "e0", plain + "0e-1"})), "one-digit"
+	}
+	switch g.r.IntN(7) {
+	case 0:
+		return numLit(plain), "int"
+	case 1:
+		return numLit(plain + drv.Pick(g.r, []string{".0", ".000"})), "point-zero"
+	case 2: // exponent without fraction: 17e8
+		d := strings.TrimRight(digits, "0")
+		if d == "" {
+			return numLit(sign + "0" + e + "0"), "exp-zero"
+		}
+		return numLit(sign + d + e + strconv.Itoa(len(digits)-len(d))), "exp"
+	case 3, 4: // fraction and exponent: 1.7e9
+		p := 1 + g.r.IntN(len(digits))
+		fr := strings.TrimRight(digits[p:], "0")
+		if g.r.Chance(1, 4) {
+			fr = digits[p:]
+		}
+		m := digits[:p]
+		if fr != "" {
+			m += "." + fr
+		}
+		return numLit(sign + m + e + strconv.Itoa(len(digits)-p)), "frac-exp"
+	case 5: // negative exponent: 17000000000e-1
+		k := 1 + g.r.IntN(3)
+		return numLit(sign + digits + strings.Repeat("0", k) + "e-" + strconv.Itoa(k)), "neg-exp"
+	default: // scaled up with a decimal point: 170000000.00e1
+		return numLit(sign + digits[:len(digits)-len(digits)/2] + "." + digits[len(digits)-len(digits)/2:] + "e" + strconv.Itoa(len(digits)/2)), "point-exp"
+	}
+}
+
+// fractional: a non-integral number near t in several spellings.
+func (g gen) fractional(t int64) numLit {
+	if t > 1<<40 || t < -(1<<40) { // keep float64 able to tell the value from an integer
+		t = base
+	}
+	plain := strconv.FormatInt(t, 10)
+	switch g.r.IntN(3) {
+	case 0:
+		return numLit(plain + drv.Pick(g.r, []string{".5", ".25", ".999"}))
+	case 1:
+		return numLit(plain + ".5e0")
+	default:
+		if t > 9 {
+			return numLit(plain[:1] + "." + plain[1:] + "1e" + strconv.Itoa(len(plain)-1))
+		}
+		return numLit(plain + ".125")
+	}
+}
+
 func jterm(v any) string {
 	switch x := v.(type) {
+	case numLit:
+		return x.term()
 	case nil:
 		return "JNull"
 	case bool:
@@ -574,6 +666,10 @@ func (g gen) jsonVal(depth int) any {
 	case 1:
 		return g.r.Bool()
 	case 2:
+		if g.r.Bool() {
+			n, _ := g.spell(g.timeVal())
+			return n
+		}
 		return float64(g.timeVal())
 	case 3:
 		return drv.Pick(g.r, []float64{1.5, -0.25, 0, 1, -1, 3.125, 1e15, 9007199254740992})
@@ -628,7 +724,11 @@ func (g gen) typedJSON(kind string) any {
 		if g.r.Chance(1, 4) {
 			return drv.Pick(g.r, rfcPool)
 		}
-		return float64(g.timeVal())
+		if g.r.Chance(1, 6) {
+			return g.fractional(g.timeVal())
+		}
+		n, _ := g.spell(g.timeVal())
+		return n
 	case "KAud":
 		if g.r.Bool() {
 			return g.str()
@@ -885,6 +985,10 @@ var altForms = []struct {
 }{
 	{"null", nil}, {"true", true}, {"false", false}, {"str-true", "true"}, {"str-false", "false"},
 	{"num0", 0.0}, {"num1", 1.0}, {"num-time", 1700000000.0}, {"num-frac", 1.5}, {"num-neg", -3.0},
+	{"lit-exp", numLit("1e9")}, {"lit-exp2", numLit("17e8")}, {"lit-frac-exp", numLit("1.7e9")}, {"lit-frac-Exp", numLit("1.7E+9")},
+	{"lit-point-zero", numLit("1700000000.0")}, {"lit-frac-exp-nonint", numLit("1.7000000001e9")}, {"lit-neg-zero", numLit("-0")},
+	{"lit-neg-exp", numLit("17000000000e-1")}, {"lit-big", numLit("2.53402300799e11")}, {"lit-2p53", numLit("9.007199254740992e15")},
+	{"lit-neg-frac-exp", numLit("-1.5e3")}, {"lit-small", numLit("1e-3")},
 	{"str-empty", ""}, {"str", "abc"}, {"str-spaces", "a b  c"}, {"str-rfc3339", "2023-01-02T03:04:05Z"},
 	{"str-rfc3339-offset", "2023-11-14T22:13:20+02:00"}, {"str-rfc3339-zero", "0001-01-01T00:00:00Z"},
 	{"str-badtime", "2023-13-02T03:04:05Z"}, {"str-locale", "de-CH"}, {"str-locales", "en de-CH xx-YY und"},
@@ -917,6 +1021,12 @@ func codecCases(w *emit.Writer, r drv.Rand, n int) {
 	}
 	// the F01 input of DESIGN.md section 6, always present
 	decK(w, "KAud", "arr-str-num", []any{"a", 1.0}, []string{"f01=aud-nonstring"})
+	// every number-literal spelling through the stand-alone Time decoder, always
+	for _, a := range altForms {
+		if strings.HasPrefix(a.tag, "lit-") {
+			decK(w, "KTime", a.tag, a.v, nil)
+		}
+	}
 	// the Fxx-C12-1 input: custom keys that encoding/json folds onto set members
 	for _, ti := range []tyInfo{types[1], types[7]} {
 		vals := make([]fv, len(ti.Schema))
@@ -1018,7 +1128,12 @@ func decCase(w *emit.Writer, g gen, ti tyInfo) {
 			f := drv.Pick(r, ti.Schema)
 			a := drv.Pick(r, altForms)
 			if r.Chance(2, 5) { // a form the member kind is documented to read
-				a.tag, a.v = "typed", generic(g.typedJSON(f.Kind))
+				a.tag, a.v = "typed", g.typedJSON(f.Kind)
+				if _, lit := a.v.(numLit); !lit {
+					a.v = generic(a.v)
+				} else {
+					a.tag = "typed-numlit"
+				}
 			}
 			m[f.Name] = a.v
 			tags = append(tags, "alt="+f.Kind+":"+a.tag)
